@@ -21,16 +21,31 @@ def decode : Format → Bytes → DRes (CVal × Bytes)
   | .cbor, b => CBOR.dec b
   | .json, b => Json.dec b
 
-def decTop : Format → Bytes → DRes (List CVal)
-  | .msgpack, b => MsgPack.decTop b
-  | .cbor, b => CBOR.decTop b
-  | .json, b => Json.decTop b
+def serializerName : Format → String
+  | .json => "JSONSerializer"
+  | .msgpack => "MessagePackSerializer"
+  | .cbor => "CBORSerializer"
+
+/-- How `Deserialize` of this format gets its list (regenerated from the source). -/
+def topDecodeOf (fmt : Format) : Gen.TopDecode :=
+  (Gen.topLevelDecode.lookup (serializerName fmt)).getD .intoSlice
 
 /-- `Deserialize(data)`: the outer `DRes` is the codec's verdict (`.error .malformed` = the codec
-    returns an error), the inner `Res` what the repo's code does with the decoded list. -/
+    returns an error), the inner `Res` what the repo's code does with the decoded value.
+
+    `listChecked` (`decodeList`): the payload is decoded into an `any`; a `[]any` goes on to the
+    head check and `listToMsg`, anything else (nil, map, scalar) is "invalid message: not a list".
+    Bytes after the first value are ignored by the codec.
+
+    `intoSlice` (decoding straight into `[]any`): lists alike; for any other top-level value the
+    codec's behaviour (it flattens a map into its keys and values) is not modelled. -/
 def deserialize (fmt : Format) (b : Bytes) : DRes (Res Msg) :=
-  match decTop fmt b with
-  | .ok l => .ok (fromList fmt l)
+  match decode fmt b with
   | .error e => .error e
+  | .ok (.list l, _) => .ok (fromList fmt l)
+  | .ok (_, _) =>
+    match topDecodeOf fmt with
+    | .listChecked => .ok (.error .notAList)
+    | .intoSlice => .error .unsupported
 
 end Nexus.Codec.Wire
